@@ -5,9 +5,9 @@ Import ListNotations.
 From Verif Require Import Base.Out Base.PyValue Model.Dates Model.StrFuncs Proofs.DatesProofs.
 Open Scope Z_scope.
 
-Definition div_coefs : list Z := zrange 0 26 ++ [33; 64; 99; 100; 125; 333; 999; 1000; 1024; 9999].
+Definition div_coefs : list Z := [0; 1; 2; 3; 5; 6; 7; 9; 12; 25; 64; 999].
 Definition div_pool : list dec :=
-  flat_map (fun c => flat_map (fun e => [mkdec false c e; mkdec true c e]) (zrange (-2) 5)) div_coefs.
+  flat_map (fun c => flat_map (fun e => [mkdec false c e; mkdec true c e]) [-1; 2]) div_coefs.
 
 (* r is x / y correctly rounded to PREC digits: sign = xor, at most PREC digits, within half a unit
    in the last place of the exact quotient, and exact unless all PREC digits are used
